@@ -11,6 +11,7 @@ open Jomini
 /-- leaf-like request types (typed scalars, `any`, unit enums). -/
 def LeafTy : Ty → Prop
   | .bool | .i64 | .u64 | .i32 | .u32 | .f64 | .f32 | .str | .any => True
+  | .i16 | .u8 | .i8 => True
   | .enum _ => True
   | _ => False
 
